@@ -1,5 +1,5 @@
 use crate::{
-    specification::{A2lFile, A2lObject, A2lObjectName},
+    specification::{A2lFile, A2lObject, A2lObjectName, Module},
     ItemList,
 };
 use std::cmp::Ordering;
@@ -35,6 +35,9 @@ pub(crate) fn sort_new_items(a2l_file: &mut A2lFile) {
      * Then the max uid of each type of item is found, and new items of that type are assigned uid = max_uid + 1
      */
     for module in &mut a2l_file.project.module {
+        // the uids are doubled below. To prevent an overflow after repeated calls they are made compact first
+        compact_module_uids(module);
+
         let next_uid = sort_optional_item(&mut module.a2ml, 1);
         let next_uid = sort_optional_item(&mut module.mod_common, next_uid);
         sort_optional_item(&mut module.mod_par, next_uid);
@@ -99,6 +102,76 @@ pub(crate) fn sort_new_items(a2l_file: &mut A2lFile) {
         }
 
         sort_optional_item(&mut module.variant_coding, 0);
+    }
+}
+
+// compact_module_uids()
+// The uids of the items in a module only define an ordering. Each non-zero uid is replaced by its rank, which
+// keeps the ordering (including ties) unchanged but makes the values as small as possible.
+fn compact_module_uids(module: &mut Module) {
+    let mut uids = Vec::new();
+    for_each_module_uid(module, &mut |uid| {
+        if *uid != 0 {
+            uids.push(*uid);
+        }
+    });
+    uids.sort_unstable();
+    uids.dedup();
+    for_each_module_uid(module, &mut |uid| {
+        if let Ok(rank) = uids.binary_search(uid) {
+            *uid = rank as u32 + 1;
+        }
+    });
+}
+
+// call func for the uid of every item that is located directly inside the module
+fn for_each_module_uid(module: &mut Module, func: &mut dyn FnMut(&mut u32)) {
+    fn optional_item<T: A2lObject<U>, U>(item: &mut Option<T>, func: &mut dyn FnMut(&mut u32)) {
+        if let Some(a2lobject) = item {
+            func(&mut a2lobject.get_layout_mut().uid);
+        }
+    }
+    fn item_list<T: A2lObject<U> + A2lObjectName, U>(
+        list: &mut ItemList<T>,
+        func: &mut dyn FnMut(&mut u32),
+    ) {
+        for a2lobject in list {
+            func(&mut a2lobject.get_layout_mut().uid);
+        }
+    }
+
+    optional_item(&mut module.a2ml, func);
+    optional_item(&mut module.mod_common, func);
+    optional_item(&mut module.mod_par, func);
+    optional_item(&mut module.variant_coding, func);
+    item_list(&mut module.axis_pts, func);
+    item_list(&mut module.blob, func);
+    item_list(&mut module.characteristic, func);
+    item_list(&mut module.compu_method, func);
+    item_list(&mut module.compu_tab, func);
+    item_list(&mut module.compu_vtab, func);
+    item_list(&mut module.compu_vtab_range, func);
+    item_list(&mut module.frame, func);
+    item_list(&mut module.function, func);
+    item_list(&mut module.group, func);
+    item_list(&mut module.instance, func);
+    item_list(&mut module.measurement, func);
+    item_list(&mut module.record_layout, func);
+    item_list(&mut module.transformer, func);
+    item_list(&mut module.typedef_axis, func);
+    item_list(&mut module.typedef_blob, func);
+    item_list(&mut module.typedef_characteristic, func);
+    item_list(&mut module.typedef_measurement, func);
+    item_list(&mut module.typedef_structure, func);
+    item_list(&mut module.unit, func);
+    for comment in &mut module.a2lcomment {
+        func(&mut comment.uid);
+    }
+    for if_data in &mut module.if_data {
+        func(&mut if_data.get_layout_mut().uid);
+    }
+    for user_rights in &mut module.user_rights {
+        func(&mut user_rights.get_layout_mut().uid);
     }
 }
 
